@@ -41,6 +41,20 @@ type Case struct {
 	// AppCB: an application's own render-time cell callback is registered on the table right after it is created,
 	// before any text wrapper exists (1: it reports an error for some cells, 2: it never fails): nothing to the renderer
 	AppCB int `json:"appcb,omitempty"`
+	// LateText: the items of the first cell of every body row change once the table is built, and the cells are
+	// brought up to date not by the caller but by a pre-cell render callback owned by column 1 that calls
+	// Cell.Update() - the slot the documentation names for work "before dimensions are locked down"
+	LateText bool `json:"late_text,omitempty"`
+}
+
+// updater brings the cell it is handed up to date.
+type updater struct{}
+
+func (updater) UpdateProperties(po tabular.PropertyOwner) error {
+	if cell, ok := po.(*tabular.Cell); ok {
+		cell.Update()
+	}
+	return nil
 }
 
 type alignSetter struct {
@@ -109,6 +123,24 @@ func Prepare(c Case) Prepared {
 		return p
 	}
 	p.InDom = true
+	if c.LateText {
+		done := map[*gen.Live]bool{} // by-value copies of a cell share their item: it changes once
+		for _, r := range m.Rows {
+			if r.Sep || r.NilCells || len(r.Cells) == 0 {
+				continue
+			}
+			mc := &r.Cells[0]
+			if mc.It.K != "if" && mc.It.K != "ifp" {
+				continue
+			}
+			to := gen.Item{K: "str", S: gen.Str(mc.Live.St.S + "!"), G: gen.Str(mc.Live.St.G + "!"), E: gen.Str(mc.Live.St.E + "!\nlate")}
+			if done[mc.Live] || gen.Mutate(mc.Live, mc.It, to) {
+				done[mc.Live] = true
+				mc.Text = gen.TextForm(mc.It, mc.Live) // what the cell will say once the callback has updated it
+			}
+		}
+		t.RegisterPropertyCallback(t.Column(1), tabular.CB_AT_RENDER_PRECELL, tabular.CB_ON_CELL, updater{})
+	}
 	al := make([]int, n+1)
 	for i := range al {
 		al[i] = m.AlignCode[i] // what property steps in between the build steps left behind
